@@ -39,8 +39,12 @@ def back(f):
 
 
 # ------------------------------------------------------------------ id lists
-def id_lists():
+def id_lists(tier="quick"):
     out = []
+    # ids in ANY order and with repeats (THRU compression must only use strictly consecutive runs)
+    for n in range(1, 6 if tier == "quick" else 7):
+        for ids in itertools.product((1, 2, 3, 5, 6), repeat=n):
+            out.append(("anyorder", list(ids)))
     for k in range(1, 128):
         out.append(("subset", [i + 1 for i in range(7) if k >> i & 1]))
     for n in range(1, 41):
@@ -250,8 +254,9 @@ def check_dmig(form, mtype, r, c, pattern, vclass, rs, res):
         cols = None
     M = M.astype(dt)
     ri = pd.MultiIndex.from_tuples(rows, names=["id", "dof"])
+    collabels = [[1, 2, 3], [2, 5, 9], [3, 1, 2], [7, 4, 12]][(rs + pattern) % 4][:c]  # form 9: column numbers need not be 1..n
     if form == 9:
-        df = pd.DataFrame(M, index=ri, columns=[j + 1 for j in range(c)])
+        df = pd.DataFrame(M, index=ri, columns=collabels)
     else:
         df = pd.DataFrame(M, index=ri, columns=pd.MultiIndex.from_tuples(cols, names=["id", "dof"]))
     f = S()
@@ -274,7 +279,7 @@ def check_dmig(form, mtype, r, c, pattern, vclass, rs, res):
     gi = [tuple(int(x) for x in t) for t in G.index]
     gc = [tuple(int(x) for x in t) for t in G.columns] if form != 9 else [int(x) for x in G.columns]
     for (a, idr) in enumerate(rows):
-        for (b, idc) in enumerate(cols if form != 9 else [j + 1 for j in range(c)]):
+        for (b, idc) in enumerate(cols if form != 9 else collabels):
             w_ = M[a, b]
             if idr in gi and idc in gc:
                 g = G.values[gi.index(idr), gc.index(idc)]
@@ -318,8 +323,8 @@ def check_grids(res):
                 ok = np.all(np.abs(g[:, 2:5] - xyz) <= 0.5001 * prec + 1e-12 * np.abs(xyz))
             else:
                 ok = np.all(np.abs(g[:, 2:5] - xyz) <= prec * np.abs(xyz) + 1e-300)
-        if ok and ps:
-            ok = np.all(g[:, 6] == 123) and (not seid or np.all(g[:, 7] == 5))
+        if ok:
+            ok = np.all(g[:, 6] == (123 if ps else 0)) and np.all(g[:, 7] == (5 if seid else 0))
         if not ok:
             msgs.append("GRID round trip (form=%s, cp=%d, cd=%d, ps=%r, seid=%r, %s) differs:\n%s" % (form, cp, cd, ps, seid, mname, f.getvalue()[:300]))
     return msgs
@@ -451,7 +456,7 @@ def run_shard(sh):
     res = Result()
     tier = sh["tier"]
     if sh["part"] == "ids":
-        L = id_lists()
+        L = id_lists(tier)
         for i in range(sh["lo"], len(L), sh["step"]):
             kind, ids = L[i]
             msgs = check_ids(kind, ids, res)
